@@ -319,3 +319,23 @@ package template
 //@ func sanitizeHTMLComment(_ ...interface{}) (r string)
 //@   serves C02 C01
 //@   ensures dropped: len(r) == 0
+
+//@ func nudge(c context) (r context)
+//@   serves C01 C04 C08
+//@   ensures state: r.state == ite(c.state == stateTag || c.state == stateAfterName, stateAttrName, ite(c.state == stateBeforeValue, stateAttr, c.state))
+//@   ensures delim: r.delim == ite(c.state == stateBeforeValue, delimSpaceOrTagEnd, c.delim)
+//@   ensures frame: same(r.element, c.element) && same(r.attr, c.attr) && same(r.err, c.err) && same(r.scriptType, c.scriptType) && same(r.linkRel, c.linkRel)
+
+//@ func (e element) String() (r string)
+//@   serves C02 C06
+//@   ensures spec: seqeq(r, cat("element", titleof(e.name)))
+
+//@ func (a attr) String() (r string)
+//@   serves C02 C06
+//@   ensures spec: seqeq(r, cat("attr", titleof(a.name)))
+
+//@ func mangle(c context, templateName string) (r string)
+//@   serves C02 C06 C14
+//@   option dependsonly c.state c.delim c.attr.name c.element.name templateName
+//@   option dependsonly-finding C02-memo-key-ignores-prefix-and-rel
+//@   ensures text: c.state == stateText ==> sameview(r, templateName)
